@@ -324,9 +324,9 @@ def _sample(case):
 
 def plan(tier: str) -> list[dict]:
     if tier == "quick":
-        return ([{"mode": "states", "n_min": 4, "n_max": 5, "examples": 40, "cost": 4} for _ in range(3)]
-                + [{"mode": "n3", "examples": 5, "cost": 3}]
-                + [{"mode": "expected", "n_max": 4, "examples": 4, "procs": [1, 2], "cost": 6} for _ in range(2)])
+        return ([{"mode": "states", "n_min": 4, "n_max": 5, "examples": 100, "cost": 4} for _ in range(4)]
+                + [{"mode": "n3", "examples": 8, "cost": 3}]
+                + [{"mode": "expected", "n_max": 4, "examples": 5, "procs": [1, 2], "cost": 6} for _ in range(3)])
     return ([{"mode": "states", "n_min": 4, "n_max": 5, "examples": 400, "cost": 10} for _ in range(8)]
             + [{"mode": "n3", "examples": 60, "cost": 6} for _ in range(2)]
             + [{"mode": "expected", "n_max": 4, "examples": 20, "procs": [1, 2, 4], "cost": 12} for _ in range(6)])
